@@ -932,6 +932,12 @@ class Atoms:
             print("WARNING: requested fractional coordinates, but there is no unit cell. Using cartesian coordinates")
             use_fract_coords = False
 
+        def add_loop(names, columns):
+            # PyCifRW >= 4.2: AddCifItem is gone; add each column, then tie them into one loop
+            for name, column in zip(names, columns):
+                block.AddItem(name, list(column))
+            block.CreateLoop(names)
+
         if use_fract_coords == True:
             coords_labels = ["_atom_site_fract_x", "_atom_site_fract_y", "_atom_site_fract_z"]
             cell_inv = np.linalg.inv(self.cell)
@@ -945,43 +951,43 @@ class Atoms:
                       ["%.4f" % s for s in self.positions[:,1]],
                       ["%.4f" % s for s in self.positions[:,2]],]
 
-        block.AddCifItem(([[
+        add_loop([
                 "_atom_site_label",
                 "_atom_site_type_symbol",
                 *coords_labels,
                 "_atom_site_charge",
                 *self.extra_atom_labels,
-            ]],[[
+            ],[
                 atom_labels,
                 self.elements,
                 *coords,
                 self.charges,
                 *self.extra_atom_fields.T,
-            ]]))
+            ])
 
         if len(self.bonds) > 0:
-            block.AddCifItem(([[
+            add_loop([
                     "_geom_bond_atom_site_label_1",
                     "_geom_bond_atom_site_label_2",
                     *self.extra_bond_labels,
-                ]],[[
+                ],[
                     [atom_labels[i] for i in self.bonds[:,0]],
                     [atom_labels[i] for i in self.bonds[:,1]],
                     *self.extra_bond_fields.T,
-                ]]))
+                ])
 
         if len(self.angles) > 0:
-            block.AddCifItem(([[
+            add_loop([
                     "_geom_angle_atom_site_label_1",
                     "_geom_angle_atom_site_label_2",
                     "_geom_angle_atom_site_label_3",
                     *self.extra_angle_labels,
-                ]],[[
+                ],[
                     [atom_labels[i] for i in self.angles[:,0]],
                     [atom_labels[i] for i in self.angles[:,1]],
                     [atom_labels[i] for i in self.angles[:,2]],
                     *self.extra_angle_fields.T,
-                ]]))
+                ])
 
         if len(self.dihedrals) > 0 or len(self.impropers) > 0:
             four_body_terms = []
@@ -989,19 +995,19 @@ class Atoms:
             four_body_terms.extend(self.impropers)
             four_body_terms = np.array(four_body_terms)
 
-            block.AddCifItem(([[
+            add_loop([
                     "_geom_torsion_atom_site_label_1",
                     "_geom_torsion_atom_site_label_2",
                     "_geom_torsion_atom_site_label_3",
                     "_geom_torsion_atom_site_label_4",
                     *self.extra_dihedral_labels,
-                ]],[[
+                ],[
                     [atom_labels[i] for i in four_body_terms[:,0]],
                     [atom_labels[i] for i in four_body_terms[:,1]],
                     [atom_labels[i] for i in four_body_terms[:,2]],
                     [atom_labels[i] for i in four_body_terms[:,3]],
                     *self.extra_dihedral_fields.T,
-                ]]))
+                ])
 
         f.write(cf.WriteOut(comment="# CIF file created by MOFUN using PyCifRW."))
 
